@@ -1,0 +1,23 @@
+//go:build verif
+
+package stateless
+
+import (
+	"context"
+
+	consensusAPI "github.com/oasisprotocol/oasis-core/go/consensus/api"
+)
+
+// VerifHandleNewBlock forwards to (*Core).handleNewBlock (the handler of the
+// provider's block subscription).
+func (c *Core) VerifHandleNewBlock(ctx context.Context, blk *consensusAPI.Block) error {
+	return c.handleNewBlock(ctx, blk)
+}
+
+// VerifLatestBlock returns the latest block recorded by handleNewBlock (what
+// GetStatus reports), nil if none.
+func (c *Core) VerifLatestBlock() *consensusAPI.Block {
+	c.mu.Lock()
+	defer c.mu.Unlock()
+	return c.latestBlock
+}
